@@ -16,7 +16,7 @@ import re
 import mp_common as M
 
 LEVEL = "proof"
-EXTRA_PROPERTIES = ["C01jx"]     # JSON / XML adapter round trip (jx family)
+EXTRA_PROPERTIES = ["C01mp", "C01jx"]     # MsgPack typed load/save round trip (mpscope family), JSON / XML adapter round trip (jx family)
 TRUSTED_BASE = [
     "Coq 8.16.1 kernel incl. vm_compute; theorems of coq/Properties_C01.v (assumptions printed per theorem in this evidence)",
     "the models are tied to /repo by the correspondences of their own families, run by the checks C06/C07 (MsgPack writer, reader, typed save), C09 (CSV), C13/C11 (encoded streams, UTF), C16 (number text), C08 (JSON/XML adapters); C01 does not repeat them",
@@ -293,6 +293,15 @@ def run(ctx, vlib):
             if len(failing) < 20:
                 failing.append(dict(driver="rt", case=line[:4000], implementation=o, judge="FAIL",
                                     why="a document the loader accepted is not a fixed point of load-save-load"))
+    # (5) MsgPack typed load: extracted load model (decode + load_spec) vs LoadObject<MsgPackArchive> vs an independent
+    #     Python evaluation, on saved documents, re-encoded documents and perturbed documents (mpscope family)
+    import C01mp
+    ml = C01mp.run_mpload(ctx, vlib)
+    evaluations += ml.get("evaluations", 0)
+    failing += [f for f in ml.get("failing", [])][: max(0, 20 - len(failing))]
+    diffs += ml.get("diffs", [])
+    for k, v in ml.get("classes", {}).items():
+        classes["mpload " + k] = v
     samples = [dict(case=clean[i][:200], outcome="OK") for i in (0, len(clean) // 2, len(clean) - 1)]
     return dict(evaluations=evaluations, distinct_nontrivial=nt, samples=samples, classes=classes, failing=failing, diffs=diffs,
                 known_lines=known_lines, extra=dict(lsl_documents=kinds),
@@ -301,6 +310,9 @@ def run(ctx, vlib):
 
 
 def replay(rp, vlib):
+    if rp.get("driver") == "mpload" or str(rp.get("case", "")).startswith("ld "):
+        import C01mp
+        return C01mp.replay_mpload(rp, vlib)
     impl = drivers(vlib)
     o = vlib.run_driver(impl, [rp["case"]], jobs=1)[0]
     return dict(case=rp["case"], implementation=o, holds=ok_answer(o) or o.startswith("REJECT-EXC:"))
